@@ -379,6 +379,10 @@ func ruleSwap(w *World, r *Report, rule string, la *LockAnalysis) {
 											}
 										}
 										con := c.fi.Name() + "#reset:" + c.ca.w.canonName(fv)
+										if locks && snapshotAndResetInOneSection(w, t, t.Pkg.TypesInfo.Defs[nm]) {
+											// takeDisposables(&x.mu, &x.list): the helper takes the lock itself and does both under it
+											locks = false
+										}
 										r.Check(!locks, rule, con, cc.Pos(), true,
 											"snapshot and reset of "+fv.Name()+" happen inside one helper call made within the critical section",
 											fv.Name()+" is snapshotted and reset by "+t.Name()+", which takes locks of its own: the two are not one critical section")
@@ -841,3 +845,59 @@ func unitName(u *unit) string {
 }
 
 var _ = token.NoPos
+
+// snapshotAndResetInOneSection: in helper t, which locks by itself, the read of
+// *p (the snapshot) and the assignment *p = nil happen without a mutex
+// operation in between, and under a lock (some lock is held at the reset).
+func snapshotAndResetInOneSection(w *World, t *FuncInfo, p types.Object) bool {
+	info := t.Pkg.TypesInfo
+	derefOfP := func(e ast.Expr) bool {
+		st, ok := unparen(e).(*ast.StarExpr)
+		return ok && objOf(info, st.X) == p
+	}
+	fl := w.FlowOf(t)
+	sol := fl.Solve(Spec{Must: true, Node: func(n ast.Node, in Facts) (gen, kill []string) {
+		for _, cc := range callsIn(n, false) {
+			if _, _, op, ok := mutexOp(info, cc); ok {
+				kill = append(kill, "snap")
+				switch op {
+				case "Lock", "RLock":
+					gen = append(gen, "locked")
+				default:
+					kill = append(kill, "locked")
+				}
+			}
+		}
+		if as, ok := n.(*ast.AssignStmt); ok {
+			for _, rhs := range as.Rhs {
+				found := false
+				ast.Inspect(rhs, func(m ast.Node) bool {
+					if ex, ok := m.(ast.Expr); ok && derefOfP(ex) {
+						found = true
+					}
+					return true
+				})
+				if found {
+					gen = append(gen, "snap")
+				}
+			}
+		}
+		return
+	}})
+	resets, good := 0, true
+	for _, n := range fl.Nodes() {
+		as, ok := n.(*ast.AssignStmt)
+		if !ok || len(as.Lhs) != len(as.Rhs) {
+			continue
+		}
+		for i, l := range as.Lhs {
+			if derefOfP(l) && isNilIdent(info, as.Rhs[i]) {
+				resets++
+				if !sol.Before[n].Has("snap") || !sol.Before[n].Has("locked") {
+					good = false
+				}
+			}
+		}
+	}
+	return resets > 0 && good
+}
